@@ -148,8 +148,8 @@ def main():
     man = {
         "version": 1,
         "setup_cmd": "./check --setup",
-        "hooks": {"guard": "ldpc_toolbox_verif", "enable": "RUSTFLAGS --cfg ldpc_toolbox_verif (set in harness/.cargo/config.toml); no hook is currently needed: every observation point is a public API",
-                  "baseline_off_cmd": "cd /repo && cargo test --workspace --no-fail-fast --offline", "source_commits": [], "add_only": True},
+        "hooks": {"guard": "ldpc_toolbox_verif", "enable": "RUSTFLAGS --cfg ldpc_toolbox_verif (set in harness/.cargo/config.toml); one hook: `pub mod verif_hooks` in src/lib.rs re-exports the selection helpers of the private module util.rs (used by C16); every other observation point is a public API",
+                  "baseline_off_cmd": "cd /repo && cargo test --workspace --no-fail-fast --offline", "source_commits": ["48f03b5"], "add_only": True},
         "engines": [{"name": "tlc-trace", "path": "/verif/check", "serves_properties": sorted(claimed),
                      "kind_free_text": "explicit TLA+ specifications (spec/*.tla) model-checked by TLC; bound to the code by trace validation: TLC-generated behaviours replayed into the real code and recorded traces of the real code judged by TLC (harness/ = Rust crate vh)"}],
         "checks": checks,
